@@ -7,13 +7,14 @@ CHECK = {
     "quick": {"shards": 8, "timeout": 600},
     "thorough": {"shards": 16, "timeout": 3600},
     "required_categories": ["generic", "antimeridian_near", "meridian_exact", "ecef_first",
-                            "ellipsoid_sphere", "ellipsoid_random", "ellipsoid_Clarke1880IGN"],
+                            "ellipsoid_sphere", "ellipsoid_random", "ellipsoid_Clarke1880IGN", "ellipsoid_near_sphere",
+                            "second_point_of_pair"],
     "required_oracles": ["forward.vs_definition_m", "roundtrip.lon_rad", "ecef_first.roundtrip_m"],
     "required_counters": ["loop_hook_calls"],
     "rule": "case = (ellipsoid, lat, lon, h) drawn from categories {generic, latitude bands at +-89.9/0/45 deg, "
             "exact meridians 0/+-90/+-180 deg and their nextafter neighbours, log-spaced offsets 1e-15..1e-3 rad "
             "from the antimeridian and prime meridian, ECEF-first points with zero/denormal/tiny Y}, heights incl. "
-            "-11 km and 100 km, ellipsoids GRS80/Clarke/International/sphere/random(a within 0.1%, f in [0,1/290]); "
+            "-11 km and 100 km, ellipsoids GRS80/Clarke/International/sphere/random(a within 0.1%, f in [0,1/290] incl. log-spaced neighbourhoods of both ends: axes differing by micrometres); every point is followed, on the same converter, by a second point 1 mm..100 km away (call-history independence); "
             "non-trivial = not (GRS80 and |lon|<3 rad and |lat|<60 deg), i.e. outside what the unit tests sample",
     "level_text": "exploration: the real converter is executed on 3e5 (quick) / 5e7 (thorough) generated "
                   "(ellipsoid, lat, lon, h) cases concentrated on the meridians, the antimeridian neighbourhood, the latitude "
